@@ -65,8 +65,10 @@ Print Assumptions ants_get2_bound_refuted.
                       by construction; on a real clock it is the idealisation "the pool's own
                       bookkeeping takes no time".  Without it no timing bound holds at all;
      an_all_prompt    EVERY handler invocation of the history (of every task, not only of k) returns
-                      no later than max(its start, the deadline of its attempt's ctx1): checked at each
-                      AnStart event of evs (models/AntsPrompt.v).
+                      no later than max(its start, the instant at which its attempt's ctx1 is done -- its
+                      deadline, or the cancellation of the dispatchers' parent context, event AnParentCancel):
+                      checked at each AnStart event of evs and, for the invocations running then, at an
+                      AnParentCancel event (models/AntsPrompt.v).
    Over all pool sizes N, all options (T, R, discardOnBusy, onError) of all tasks, all behaviours, all
    accepted event histories = all tie orders.  Conclusion, for every task k in the final state:
      - its dispatcher was never blocked in sendInnerCallback for a positive duration (B = at_blocked = 0,
